@@ -47,6 +47,14 @@ def explore(ctx):
         forms = gen.forward_reference_program(ctx.rng)
         kinds["internal-define"] += sum(f.count("(define") for f in forms)
         cases.append(make_case(forms))
+    for k in range(150 if ctx.quick else 4000):
+        forms = gen.evaluation_position_program(ctx.rng)
+        kinds["tick"] += sum(f.count("(tick ") for f in forms)
+        cases.append(make_case(forms))
+    for k in range(40 if ctx.quick else 1000):
+        forms = gen.closure_chain_program(ctx.rng)
+        kinds["lambda"] += sum(f.count("(lambda") for f in forms)
+        cases.append(make_case(forms))
     results, ndis = common.run_cases(ctx, cases, compare=common.compare_fuel)
     outcomes = {"value": 0, "none": 0, "error": 0, "timeout/abort": 0}
     distinct = set()
@@ -74,7 +82,11 @@ def explore(ctx):
                 "recursion under if / cond / thunks) that create a closure per round capturing parameters and internal "
                 "definitions and let it escape through a list, an argument or a vector, and procedure bodies whose first internal "
                 "definition is initialised by a closure made on the spot that refers to later internal definitions (with and "
-                "without parameters, an outer binding of the same name present or not), evaluated form by form "
+                "without parameters, an outer binding of the same name present or not), procedures whose body is a nested conditional "
+                "in tail position with ticking / state-changing tests and every kind of branch (constant, variable, quoted datum, "
+                "call, nested and one-armed conditional) called directly, as operand, through apply, from a tail call and from a thunk, "
+                "and loops whose every round tail-calls a NEW closure of the same lambda expression capturing changing values, "
+                "evaluated form by form "
                 "on one interpreter; observables per form: canonical value or error kind+location, tick trace, "
                 "stdout. non-trivial = distinct form that produced a value and contains a lambda, an apply or more "
                 "than three nested calls",
